@@ -143,8 +143,8 @@ pub fn foreign_doc(rng: &mut Rng, max_nodes: usize) -> Vec<u8> {
         if *budget == 0 { return; }
         *budget -= 1;
         let html_names: &[&str] = &["div", "b", "span", "x-y", "a", "verylongtagname12", "p", "i"];
-        let svg_names: &[&str] = &["g", "path", "circle", "x-unit", "text", "a", "font", "title", "desc", "foreignObject", "script", "style"];
-        let math_names: &[&str] = &["mrow", "mi", "mo", "mn", "ms", "mtext", "annotation-xml", "x-y", "mglyph", "font", "semantics"];
+        let svg_names: &[&str] = &["g", "path", "circle", "x-unit", "text", "a", "font", "title", "desc", "foreignObject", "script", "style", "linearGradient", "font-face", "input", "link", "col"];
+        let math_names: &[&str] = &["mrow", "mi", "mo", "mn", "ms", "mtext", "annotation-xml", "x-y", "mglyph", "font", "semantics", "source", "verylongmathname1"];
         let r = rng.below(12);
         if r < 2 { out.extend_from_slice(rng.pick(&["t", "1 ", "x&amp;y", "é"]).as_bytes()); return; }
         if r == 2 { out.extend_from_slice(b"<!--c-->"); return; }
@@ -302,3 +302,68 @@ pub const ENCODINGS_ALL: &[&str] = &[
     "windows-1250", "windows-1251", "windows-1252", "windows-1253", "windows-1254", "windows-1255",
     "windows-1256", "windows-1257", "windows-1258", "x-mac-cyrillic", "x-user-defined",
 ];
+
+
+/// Words of spec/MC_TokCover.tla (the same vocabulary, byte for byte).
+pub const COVER_WORDS: &[&[u8]] = &[b"<", b">", b"/", b"!", b"-", b"=", b"\"", b"'", b" ", b"]", b"?", b"a", b"A1", b"script", b"title", b"style",
+    b"plaintext", b"svg", b"[CDATA[", b"DOCTYPE", b"PUBLIC", b"system", b"--", b"]]>"];
+/// A suffix that continues differently from every tokenizer state (closers of every text mode, comment, CDATA, quotes).
+pub const COVER_PROBE: &[u8] = b"x <script> </script><p>h</p>--></script><b>u</b></title></style>]]><i>v</i>\"'><u>w</u>";
+
+/// Transition-coverage inputs from the specification: spec/TokCover.tla prints one shortest witness prefix per
+/// control state of the tokenizer table (REPLAY lines, file named by VERIF_REPLAY_FILE); every witness is
+/// extended by every word and a closing suffix.  Returns (input, cut at the end of the witness, cut after the word).
+/// quick: one witness per (state, text mode, special name, namespace, token kind); thorough: every witness.
+pub fn cover_inputs(quick: bool, html_only: bool) -> Vec<(Vec<u8>, usize, usize)> {
+    let path = std::env::var("VERIF_REPLAY_FILE").unwrap_or_default();
+    let text = std::fs::read_to_string(&path).unwrap_or_default();
+    let mut seen = std::collections::HashSet::new();
+    let mut out = Vec::new();
+    for line in text.lines() {
+        let b: serde_json::Value = match serde_json::from_str(line) { Ok(v) => v, Err(_) => continue };
+        let Some(arr) = b.get("input").and_then(|x| x.as_array()) else { continue };
+        if b.get("st").is_none() || b.get("cls").is_none() { continue; }
+        let p: Vec<u8> = arr.iter().map(|x| x.as_u64().unwrap_or(0) as u8).collect();
+        if quick {
+            let key = format!("{}|{}|{}|{}|{}", b["st"], b["tt"], b["cls"], b["ns"], b["k"]);
+            if !seen.insert(key) { continue; }
+        }
+        for (wi, w) in COVER_WORDS.iter().enumerate() {
+            let suffixes: &[&[u8]] = if quick { if wi % 6 == 0 { &[COVER_PROBE, b""] } else { &[COVER_PROBE] } } else { &[COVER_PROBE, b""] };
+            for sfx in suffixes {
+                let mut v = p.clone(); v.extend_from_slice(w); v.extend_from_slice(sfx);
+                if html_only { let low = v.to_ascii_lowercase(); if low.windows(4).any(|x| x == b"<svg") { continue; } }
+                out.push((v, p.len(), p.len() + w.len()));
+            }
+        }
+    }
+    out
+}
+
+
+/// Inputs from spec/GuardCover.tla: one shortest tag sequence per state of the strict-mode ambiguity guard (REPLAY
+/// lines with "guard_input"), each extended by every pair of tags of a vocabulary and a probe that opens a
+/// text-mode element around markup.
+pub fn guard_cover_inputs(quick: bool) -> Vec<Vec<u8>> {
+    const TAGS: &[&str] = &["<select>", "<template>", "<textarea>", "<input>", "<keygen>", "<frameset>", "<noframes>", "<xmp>", "<title>", "<script>",
+        "<div>", "<option>", "<table>", "<tr>", "<td>", "</select>", "</template>", "</frameset>", "</div>", "</table>", "</textarea>", "x"];
+    const PROBES: &[&str] = &["<xmp><b>x</b></xmp><i>t</i>", "<title><i>y</i></title><p>u</p>", "<script>a<b></script><u>v</u>", "<style><a></style><noframes><c></noframes>z"];
+    let path = std::env::var("VERIF_REPLAY_FILE").unwrap_or_default();
+    let text = std::fs::read_to_string(&path).unwrap_or_default();
+    let mut out = Vec::new();
+    let mut k = 0usize;
+    for line in text.lines() {
+        let b: serde_json::Value = match serde_json::from_str(line) { Ok(v) => v, Err(_) => continue };
+        let Some(arr) = b.get("guard_input").and_then(|x| x.as_array()) else { continue };
+        if quick && b["depth"].as_u64().unwrap_or(0) > 2 { continue; }
+        let p: Vec<u8> = arr.iter().map(|x| x.as_u64().unwrap_or(0) as u8).collect();
+        for t1 in TAGS { for t2 in TAGS {
+            let probes: Vec<&str> = if quick { k += 1; vec![PROBES[k % PROBES.len()]] } else { PROBES.to_vec() };
+            for pr in probes {
+                let mut v = p.clone(); v.extend_from_slice(t1.as_bytes()); v.extend_from_slice(t2.as_bytes()); v.extend_from_slice(pr.as_bytes());
+                out.push(v);
+            }
+        } }
+    }
+    out
+}
